@@ -184,6 +184,47 @@ theorem C02.fill_order_free (env : PrecEnv) (bucket : Option String) (e₁ e₂ 
   · simp [FPost.mustBalance, FPost.ofPosting, hk]
   · simp [costOrAmt, FPost.ofPosting, ha]
 
+/-- Default-account declarations.  For any directive list, whatever the spelling
+    of each declaration (`A X`, `bucket X`, `account X` + `default`): the bucket
+    in force when a transaction is read is the account of the LAST declaration
+    preceding it (none if there is none), and that is the bucket its `finalize`
+    is run with. -/
+theorem C02.bucket_last_declaration_wins (enum : Balance → Balance) (pre : List JItem) (x : LXact) :
+    (load enum pre).bucket = lastBucket pre ∧
+    load enum (pre ++ [.xact x]) = step enum (load enum pre) (.xact x) ∧
+    (∀ fx, finalize (observe (load enum pre).env x) (lastBucket pre) enum x = .ok fx →
+      (load enum (pre ++ [.xact x])).xacts = (load enum pre).xacts ++ [fx]) := by
+  have hb : (load enum pre).bucket = lastBucket pre := by
+    unfold load
+    rw [foldl_step_bucket]
+    cases lastBucket pre <;> rfl
+  have hl : load enum (pre ++ [.xact x]) = step enum (load enum pre) (.xact x) := by
+    simp [load, List.foldl_append]
+  refine ⟨hb, hl, fun fx hf => ?_⟩
+  rw [hl]
+  simp only [step, hb, hf]
+
+/-- a later declaration replaces an earlier one, in every combination of spellings -/
+theorem C02.bucket_redeclared (enum : Balance → Balance) (pre mid : List JItem) (h₁ h₂ : BucketDecl) (a b : String)
+    (hmid : lastBucket mid = none) :
+    (load enum (pre ++ [.bucket h₁ a] ++ mid ++ [.bucket h₂ b])).bucket = some b ∧
+    (load enum (pre ++ [.bucket h₁ a] ++ mid)).bucket = some a := by
+  have key : ∀ l, (load enum l).bucket = lastBucket l := by
+    intro l; unfold load; rw [foldl_step_bucket]; cases lastBucket l <;> rfl
+  have app : ∀ l₁ l₂, lastBucket (l₁ ++ l₂) = (match lastBucket l₂ with | some c => some c | none => lastBucket l₁) := by
+    intro l₁ l₂
+    induction l₁ with
+    | nil => simp only [List.nil_append, lastBucket]; cases lastBucket l₂ <;> rfl
+    | cons it its ih =>
+      cases it with
+      | bucket how c => simp only [List.cons_append, lastBucket, ih]; cases lastBucket l₂ <;> rfl
+      | xact y => simp only [List.cons_append, lastBucket, ih]
+  constructor
+  · rw [key, app]; rfl
+  · rw [key, app, hmid]
+    simp only
+    rw [app]; rfl
+
 /-- the sort itself: any two enumerations of a residual with one entry per
     commodity are sorted into the same list (shared with C19) -/
 theorem C02.sortedAmounts_perm (l₁ l₂ : List Amount) (hp : l₁.Perm l₂)
